@@ -20,7 +20,10 @@ EXPLANATION = (
     "truthiness elision is a defined bad pattern; R01.4 every store-bearing sub-adapter of a collection adapter "
     "is emitted as a top-level list and every list the reader consumes is produced by the writer; R01.5 the "
     "reader registers top-level lists in dependency (wiring) order; R01.6 the (type name, data class, adapter) "
-    "table is most-specific-first and agrees with the discriminated union and DataType. Value-level fidelity "
+    "table is most-specific-first and agrees with the discriminated union and DataType; R01.7 the reader rebuilds "
+    "each object once per document id and resolves ids from that store, terms are written through key_from_term and "
+    "rebuilt through term_from_key (label codec), and the file is dumped with exclude_none only / parsed through "
+    "AOEFObject. Value-level fidelity "
     "of pydantic's JSON codec and the n-cycle fixpoint are not decided here."
 )
 ASSUMPTIONS = [
@@ -316,7 +319,8 @@ class C01:
 
     # -------------------------------------------------------------- R01.1 - R01.3 on one writer/reader pair
     def check_pair(self, name: str, adapter: ClassInfo, D: ClassInfo, O: ClassInfo, wmeth: str, rmeth: str,
-                   key_reads: List[str], collection=False):
+                   key_reads: List[str], collection=False, only=None):
+        """only: restrict the obligations to these field names (used when another property delegates here)."""
         ctx, m = self.ctx, self.ctx.models
         file = relfile(adapter)
         try:
@@ -337,6 +341,11 @@ class C01:
                     f"reader constructs {rt.name if rt else '?'} but the adapter's data class is {D.name}", rret.lineno)
             return
         Df, Of = m.field_map(D), m.field_map(O)
+        if only is not None:
+            Df = {k: v for k, v in Df.items() if k in only}
+            Of = {k: v for k, v in Of.items() if k in only}
+            wk = {k: v for k, v in wk.items() if k in only}
+            rk = {k: v for k, v in rk.items() if k in only}
         # writer map: O keyword g -> D fields it depends on ; reader map: D keyword f -> O fields it depends on
         W = {g: [f for f in attr_reads(v, wobj) if f in Df] for g, v in wk.items()}
         # store-mediated flow: `g=self.A.values()` depends on every field converted through self.A before
@@ -436,6 +445,32 @@ class C01:
             if vv[0] == "from_super_default":
                 continue
             self._check_elision(g, vv, W.get(g, []), ty, D, O, Df, Of, rk, robj, wowner, wmeth, wret, rowner, rmeth, rret)
+        # R01.3 (filters): a comprehension over a field of the object may only drop elements by `is not None` tests
+        for g, v in wk.items():
+            vv = v[2] if v[0] == "from_super" else v
+            for x in walk(vv):
+                if x[0] != "comp":
+                    continue
+                for lid, it, conds in x[3]:
+                    if not any(y == wobj for y in walk(it)):
+                        continue
+                    for c in conds:
+                        wsite = f"{wowner.module.relpath}:{wret.lineno} {wowner.name}.{wmeth}"
+                        if c[0] == "cmp" and c[1] == "isnot" and c[3] == NONE:
+                            ctx.ok("R01.3", wsite, f"{O.name}.{g}: element filter `{show(c)[:50]}` drops only None")
+                            continue
+                        shp = Types(ctx, ws, wobj, D).shape_of(c) if c[0] in ("attr", "elem", "sub") else None
+                        core = strip_opt(shp) if shp else None
+                        if core is not None and core[0] == "prim" and core[1] in SCALARS:
+                            ctx.bad("R01.3", wowner.module.relpath, f"{wowner.name}.{wmeth}", f"{O.name}({g}=[... if {show(c)[:40]}])",
+                                    f"the elements of {D.name}.{'/'.join(W.get(g, [])) or g} are filtered by the truthiness of "
+                                    f"`{show(c)[:50]}` ({shape_str(shp)}): an element whose value is "
+                                    f"{ {'float': 0.0, 'int': 0, 'str': repr(''), 'bool': False}[core[1]]} is silently dropped from the document",
+                                    wret.lineno, witness={"dropped_value": {'float': 0.0, 'int': 0, 'str': '', 'bool': False}[core[1]]})
+                        else:
+                            ctx.bad("R01.3", wowner.module.relpath, f"{wowner.name}.{wmeth}", f"{O.name}({g}=[... if {show(c)[:60]}])",
+                                    f"the elements written to {O.name}.{g} are filtered by `{show(c)[:70]}`: every element of the field must be "
+                                    f"written (only `is not None` filters are lossless)", wret.lineno)
         # inline element classes
         self._check_inline(D, O, Df, wk, rk, ws, rs, wobj, robj, wowner, wmeth, wret, rowner, rmeth, rret)
 
@@ -892,7 +927,123 @@ class C01:
                         f"dispatch does not select the row by `{test}` against the table entry", s.node.lineno)
 
 
+    # -------------------------------------------------------------- R01.7 reader registration, codecs
+    def check_codecs(self):
+        ctx = self.ctx
+        from .aoef import ADAPTERS_MOD
+        SELF = ("param", "self")
+        store = ("attr", SELF, "_soundevent_store")
+        DA = ctx.index.need_class(ADAPTERS_MOD, "DataAdapter")
+        file = DA.module.relpath
+        s = ctx.summ.of_func(ADAPTERS_MOD, "DataAdapter.to_soundevent")
+        obj = ("param", s.params[1])
+        key = ("call", ("attr", SELF, "_get_aoef_key"), (obj,), ())
+        site = f"{file}:{s.node.lineno} DataAdapter.to_soundevent"
+        sts = [e for e in s.of("store") if e.term[1][0] == "sub" and e.term[1][1] == store]
+        asm = ("call", ("attr", SELF, "assemble_soundevent"), (obj,), ())
+        good = len(sts) == 1 and sts[0].term[1][2] == key and sts[0].term[2] == asm and ("cmp", "notin", key, store) in conjuncts_(sts[0].live)
+        rets = s.returns
+        good = good and len(rets) == 1 and rets[0].term == ("sub", store, key)
+        if good:
+            ctx.ok("R01.7", site, "_soundevent_store[key(obj)] = assemble_soundevent(obj) once per key; returns the stored object")
+        else:
+            ctx.bad("R01.7", file, "DataAdapter.to_soundevent", "self._soundevent_store[obj_id] = soundevent_obj",
+                    "on load an object must be rebuilt once per document id (keyed by _get_aoef_key(obj)) and that very object "
+                    "returned: otherwise shared sub-objects are duplicated or references resolve to the wrong object", s.node.lineno)
+        f = ctx.summ.of_func(ADAPTERS_MOD, "DataAdapter.from_id")
+        oid = ("param", f.params[1])
+        if len(f.returns) == 1 and f.returns[0].term in (("call", ("attr", store, "get"), (oid,), ()), ("call", ("attr", store, "get"), (oid, NONE), ())):
+            ctx.ok("R01.7", f"{file}:{f.node.lineno} DataAdapter.from_id", "from_id(id) = _soundevent_store.get(id)")
+        else:
+            ctx.bad("R01.7", file, "DataAdapter.from_id", f"return {show(f.returns[0].term)[:60] if f.returns else '-'}",
+                    "from_id must look the id up in the store filled by to_soundevent", f.node.lineno)
+        for meth in ("_get_aoef_key", "_get_soundevent_key", "get_new_id"):
+            k = ctx.summ.of_func(ADAPTERS_MOD, f"DataAdapter.{meth}")
+            o = ("param", k.params[1])
+            if len(k.returns) == 1 and k.returns[0].term == ("attr", o, "uuid"):
+                ctx.ok("R01.7", f"{file}:{k.node.lineno} DataAdapter.{meth}", "default identity is the object's uuid")
+            else:
+                ctx.bad("R01.7", file, f"DataAdapter.{meth}", f"return {show(k.returns[0].term)[:40] if k.returns else '-'}",
+                        f"the default {meth} must be the object's uuid (the id written to and read from the document)", k.node.lineno)
+        # term codec: stored as its label, rebuilt from it
+        cm = "soundevent.data.compat"
+        k = ctx.summ.of_func(cm, "key_from_term")
+        t = ("param", k.params[0])
+        cfile = k.module.relpath
+        if len(k.returns) == 1 and k.returns[0].term == ("attr", t, "label"):
+            ctx.ok("R01.7", f"{cfile}:{k.node.lineno} key_from_term", "a term is stored as its label")
+        else:
+            ctx.bad("R01.7", cfile, "key_from_term", f"return {show(k.returns[0].term)[:40] if k.returns else '-'}",
+                    "a term must be stored as its label (the only permitted reduction); storing anything else changes the label on reload",
+                    k.node.lineno)
+        k2 = ctx.summ.of_func(cm, "term_from_key")
+        kk = ("param", k2.params[0])
+        r = k2.returns[0].term if len(k2.returns) == 1 else None
+        if r is not None and r[0] == "call" and dict(r[3]).get("label") == kk:
+            ctx.ok("R01.7", f"{cfile}:{k2.node.lineno} term_from_key", "the stored key becomes the label of the rebuilt term")
+        else:
+            ctx.bad("R01.7", cfile, "term_from_key", f"return {show(r)[:60] if r else '-'}",
+                    "term_from_key must rebuild a Term whose label is the stored key", k2.node.lineno)
+        kft, tfk = ("global", f"{cm}:key_from_term", "func"), ("global", f"{cm}:term_from_key", "func")
+        # every Term written goes through key_from_term; every Term read comes from term_from_key
+        units = [(l.ci, l.writer_name, l.reader_name) for l in self.ao.leaves.values()] + \
+                [(c.ci, "to_aoef", "to_soundevent") for c in self.ao.collections if "to_aoef" in c.ci.methods]
+        for ci, wn, rn in units:
+            ws = self.ctx.summ.of_node(ci.module, ci.methods[wn][-1], f"{ci.qual}.{wn}", ci) if wn in ci.methods else None
+            rs = self.ctx.summ.of_node(ci.module, ci.methods[rn][-1], f"{ci.qual}.{rn}", ci) if rn in ci.methods else None
+            if ws is not None:
+                for r_ in ws.returns:
+                    uses = [x for x in walk(r_.term) if x[0] == "attr" and x[2] == "term"]
+                    wrapped = [x[2][0] for x in walk(r_.term) if x[0] == "call" and x[1] == kft and len(x[2]) == 1]
+                    for u in uses:
+                        if u in wrapped:
+                            ctx.ok("R01.7", f"{ci.module.relpath}:{r_.lineno} {ci.name}.{wn}", f"term {show(u)[:30]} written through key_from_term")
+                        else:
+                            ctx.bad("R01.7", ci.module.relpath, f"{ci.name}.{wn}", f"term written as {show(u)[:40]} without key_from_term",
+                                    f"{ci.name}.{wn} writes a term without data.key_from_term (the reader rebuilds terms with term_from_key, "
+                                    f"so the label would not round-trip)", r_.lineno)
+            if rs is not None:
+                for r_ in rs.returns:
+                    for x in walk(r_.term):
+                        if x[0] == "call" and x[1][0] == "global" and x[1][2] == "class":
+                            tv = dict(x[3]).get("term")
+                            if tv is None:
+                                continue
+                            if tv[0] == "call" and tv[1] == tfk and len(tv[2]) == 1:
+                                ctx.ok("R01.7", f"{ci.module.relpath}:{r_.lineno} {ci.name}.{rn}", "term rebuilt with term_from_key(stored key)")
+                            else:
+                                ctx.bad("R01.7", ci.module.relpath, f"{ci.name}.{rn}", f"term={show(tv)[:50]}",
+                                        f"{ci.name}.{rn} rebuilds a term as {show(tv)[:60]} instead of data.term_from_key(<stored key>)", r_.lineno)
+        # save / load codec options
+        sv = ctx.summ.of_func(AOEF_PKG, "save")
+        dumps = [e for e in sv.calls if e.term[1][0] == "attr" and e.term[1][2] == "model_dump_json"]
+        afile = sv.module.relpath
+        if len(dumps) == 1:
+            kw = dict(dumps[0].term[3])
+            bad_opts = [k_ for k_ in ("exclude_defaults", "exclude_unset", "include", "by_alias", "round_trip") if k_ in kw and kw[k_] != ("const", False)]
+            if kw.get("exclude_none") in (("const", True), None) and not bad_opts and kw.get("exclude", ("param", "exclude")) == ("param", "exclude"):
+                ctx.ok("R01.7", f"{afile}:{dumps[0].lineno} save", "document dumped with exclude_none only (defaults such as collection_type are kept)")
+            else:
+                ctx.bad("R01.7", afile, "save", f"model_dump_json({', '.join(k_ for k_, _ in dumps[0].term[3])})",
+                        f"the document must be dumped with exclude_none (and the caller's exclude) only: options {bad_opts or sorted(kw)} drop "
+                        f"fields that carry information (e.g. the collection_type discriminator default, explicit defaults)", dumps[0].lineno)
+        else:
+            ctx.undec("R01.7", f"{afile} save", "model_dump_json call not found")
+        ld = ctx.summ.of_func(AOEF_PKG, "load")
+        val = [e for e in ld.calls if e.term[1] == ("attr", ("global", f"{AOEF_PKG}:AOEFObject", "class"), "model_validate_json")]
+        if len(val) == 1:
+            ctx.ok("R01.7", f"{afile}:{val[0].lineno} load", "document parsed by AOEFObject.model_validate_json")
+        else:
+            ctx.bad("R01.7", afile, "load", "AOEFObject.model_validate_json(path.read_text())", "the file is not parsed through the AOEFObject schema", ld.node.lineno)
+
+
+def conjuncts_(t):
+    from sa.sym import conjuncts
+    return conjuncts(t)
+
+
 def run(ctx: Ctx):
+    ctx.rule("R01.7", "reader registration discipline; term codec (label); save/load codec options", 27)
     ctx.rule("R01.1", "field carry: every declared field written, supplied on read; every document field consumed", 200)
     ctx.rule("R01.2", "writer and reader field maps are mutually inverse", 80)
     ctx.rule("R01.3", "every elision by the writer is restored by the reader; no scalar truthiness elision", 30)
@@ -908,4 +1059,10 @@ def run(ctx: Ctx):
     c.check_leaves()
     c.check_collections()
     c.check_table()
+    c.check_codecs()
+    # reference closure (the rules of C02) is a necessary condition of the round trip: an object that is referenced
+    # but not defined in the document is silently dropped on load
+    from . import c02
+    with ctx.delegated("C02/"):
+        c02.run(ctx, who_may_write=False)
     return EXPLANATION, ASSUMPTIONS
